@@ -186,6 +186,7 @@ func startNode(port int, engine, policy string) (*liveNode, error) {
 	}
 	ln := &liveNode{inst: inst, nd: inst.Nodes[0].Node, port: port}
 	ln.st = ln.nd.VerifKVStore()
+	ln.st.VerifStopBackgroundExpire() // the sweep is run explicitly every 700 vectors (VerifValidExpireTick)
 	ln.rc, err = dial(port)
 	if err != nil {
 		return nil, err
